@@ -149,9 +149,32 @@ ORDER = {"Info": 0, "Warning": 1, "Error": 2}
 _EV_ENV = {}
 
 
+LABEL_WORLDS = {"empty": [], "user": [True], "other": [False], "mixed": [True, False]}
+_EV_WORLD = {"labels": "empty", "user": None}
+
+
+def _ev_elem(body, var, inuser):
+    """value of a closure body over one primary file id that is / is not one of the user's inputs"""
+    b = strip(body)
+    if b["k"] == "Block":
+        from astlib import block_tail
+        tl = block_tail(b)
+        return _ev_elem(tl, var, inuser) if tl is not None and len(b["stmts"]) == 1 else None
+    if b["k"] == "Unary" and b["op"] == "!":
+        v = _ev_elem(b["e"], var, inuser)
+        return None if v is None else (not v)
+    if b["k"] == "MethodCall" and b["method"] == "contains" and len(b["args"]) == 1:
+        a = render(strip(b["args"][0])).replace(" ", "").lstrip("&*")
+        recv = render(strip(b["recv"])).replace(" ", "")
+        if a == var and (_EV_WORLD["user"] is None or recv == _EV_WORLD["user"]):
+            return inuser
+    return None
+
+
 def _ev(e, cat):
-    """value of a boolean expression of filter_by_file for a report WITHOUT primary labels of category `cat`:
-    True / False / None (unknown)"""
+    """value of a boolean expression of filter_by_file for a report of category `cat` whose primary labels are those
+    of the current label world (none / all in user files / none in user files / both): True / False / None (unknown)"""
+    elems = LABEL_WORLDS[_EV_WORLD["labels"]]
     if _EV_ENV:
         from pathcond import _subst
 
@@ -178,11 +201,23 @@ def _ev(e, cat):
             return True
         return False if (a is False and b is False) else None
     if k == "MethodCall" and e["method"] == "is_empty" and "primary_file_ids" in render(e["recv"]):
-        return True
-    if k == "MethodCall" and e["method"] in ("any",) and "primary_file_ids" in render(e["recv"]):
-        return False  # no element
-    if k == "MethodCall" and e["method"] in ("all",) and "primary_file_ids" in render(e["recv"]):
-        return True
+        return not elems
+    if k == "MethodCall" and e["method"] in ("any", "all") and "primary_file_ids" in render(e["recv"]):
+        if not elems:
+            return e["method"] == "all"
+        cl = strip(e["args"][0]) if e["args"] else None
+        if cl is None or cl["k"] != "Closure" or len(cl["inputs"]) != 1:
+            return None
+        prm = cl["inputs"][0]
+        while prm["k"] in ("PRef", "PReference") and prm.get("pat"):
+            prm = prm["pat"]
+        if prm["k"] != "PIdent":
+            return None
+        var = prm["name"]
+        vals = [_ev_elem(cl["body"], var, x) for x in elems]
+        if any(v is None for v in vals):
+            return None
+        return any(vals) if e["method"] == "any" else all(vals)
     if k == "Binary" and e["op"] in ("==", "!=", ">=", "<=", ">", "<"):
         l, r = render(strip(e["l"])).replace(" ", ""), render(strip(e["r"])).replace(" ", "")
         m = re.fullmatch(r"MessageCategory::(\w+)", r) or re.fullmatch(r"MessageCategory::(\w+)", l)
@@ -199,15 +234,18 @@ def _ev(e, cat):
     return None
 
 
-def filter_tolerance():
-    """How does cli::filter_by_file treat a report without primary labels?  The function is evaluated on all its
-    structured paths for `primary_file_ids()` empty and each category.
+def filter_tolerance(labels="empty"):
+    """How does cli::filter_by_file treat a report whose primary labels are those of the label world `labels`
+    (default: none)?  The function is evaluated on all its structured paths for each category.
     returns (set of categories that pass | 'all' | None, description)."""
     from pathcond import enumerate_paths
     fn = find_fn(MAIN, "filter_by_file")
     if fn is None:
         return None, "filter_by_file not found"
     desc = render(fn["body"])[:300]
+    _EV_WORLD["labels"] = labels
+    prm = [i for i in fn["sig"]["inputs"] if not i.get("self")]
+    _EV_WORLD["user"] = prm[1]["pat"]["name"] if len(prm) == 2 and prm[1]["pat"]["k"] == "PIdent" else None
     # immutable simple lets of the function stand for their definitions
     _EV_ENV.clear()
     for n in walk(fn["body"]):
@@ -251,8 +289,9 @@ def filter_tolerance():
             passes.add(cat)
         elif result == "mixed" or not decided:
             unknown = True
+    _EV_WORLD["labels"] = "empty"
     if unknown:
-        return None, "cannot evaluate filter_by_file for a label-less report: " + desc
+        return None, "cannot evaluate filter_by_file for a report with label world `%s`: " % labels + desc
     if passes == set(ORDER):
         return "all", desc
     return passes, desc
